@@ -990,6 +990,12 @@ func (f *Frame) exec(ins ssa.Instruction) {
 		f.effect("send", x.Pos())
 		ns := f.getCell(f.cur, "ghost:nsent", SInt)
 		f.setCell(f.cur, "ghost:nsent", SInt, sx("+", ns, "1"))
+		if g := f.vc.P.lastSentGhost(x.Chan.Type()); g != "" {
+			if sv, ok := evAsVal(f.val(x.X)); ok && sv.s == SInt {
+				ls := f.getCell(f.cur, g, "(Array Int Int)")
+				f.setCell(f.cur, g, "(Array Int Int)", sx("store", ls, f.sval(x.Chan).t, sv.t))
+			}
+		}
 	case *ssa.Go:
 		f.effect("go", x.Pos())
 	case *ssa.Defer:
@@ -1633,6 +1639,7 @@ func (f *Frame) execSelect(x *ssa.Select) {
 	nsent := f.getCell(f.cur, "ghost:nsent", SInt)
 	sentTerm := nsent
 	var anyClosedRecv []string
+	lastSentNew, lastSentOld := map[string]string{}, map[string]string{}
 	recvd := f.getCell(f.cur, "ghost:recvd", "(Array Int Bool)")
 	recvdTerm := recvd
 	for i, s := range x.States {
@@ -1646,6 +1653,17 @@ func (f *Frame) execSelect(x *ssa.Select) {
 		} else {
 			// choosing a send case performs the send (ghost counter of sends)
 			sentTerm = ite(eq(idx, fmt.Sprint(i)), sx("+", nsent, "1"), sentTerm)
+			// ... and hands over exactly the value of that case (ghost: last value sent per channel; pointer-like values only)
+			if g := vc.P.lastSentGhost(s.Chan.Type()); g != "" {
+				if sv, ok := evAsVal(f.val(s.Send)); ok && sv.s == SInt {
+					cur := f.getCell(f.cur, g, "(Array Int Int)")
+					if _, seen := lastSentNew[g]; !seen {
+						lastSentNew[g] = cur
+						lastSentOld[g] = cur
+					}
+					lastSentNew[g] = ite(eq(idx, fmt.Sprint(i)), sx("store", lastSentOld[g], ch.t, sv.t), lastSentNew[g])
+				}
+			}
 		}
 	}
 	if !x.Blocking && len(anyClosedRecv) > 0 {
@@ -1653,8 +1671,33 @@ func (f *Frame) execSelect(x *ssa.Select) {
 		vc.assume(implies(or(anyClosedRecv...), sx("distinct", idx, "(- 1)")))
 	}
 	f.setCell(f.cur, "ghost:nsent", SInt, sentTerm)
+	for g, t := range lastSentNew {
+		f.setCell(f.cur, g, "(Array Int Int)", t)
+	}
 	f.setCell(f.cur, "ghost:recvd", "(Array Int Bool)", recvdTerm)
 	f.vals[x] = tup
+}
+
+// lastSentGhost: the ghost cell recording the last value sent on channels of this element type, if the prelude declares
+// one (`;; ghost lastSent_<ElemTypeName> (Array Int Int)`); only channels of pointers to named types are recorded.
+func (P *Program) lastSentGhost(chT types.Type) string {
+	ch, ok := chT.Underlying().(*types.Chan)
+	if !ok {
+		return ""
+	}
+	pt, ok := ch.Elem().Underlying().(*types.Pointer)
+	if !ok {
+		return ""
+	}
+	nt, ok := pt.Elem().(*types.Named)
+	if !ok {
+		return ""
+	}
+	name := "lastSent_" + nt.Obj().Name()
+	if _, ok := P.ghosts[name]; !ok {
+		return ""
+	}
+	return "ghost:" + name
 }
 
 var _ = strings.Contains
